@@ -1524,7 +1524,14 @@ func (f *FuncCFG) AfterComm(pred func(ast.Node) bool) []Point {
 // recvObj returns the receiver variable of a method declaration (nil for functions and
 // anonymous receivers).
 func recvObj(info *types.Info, fd *ast.FuncDecl) types.Object {
-	if fd.Recv == nil || len(fd.Recv.List) == 0 || len(fd.Recv.List[0].Names) == 0 {
+	if fd.Recv == nil {
+		// a former method written as a package-level function: the parameter in the receiver's role
+		if id := pseudoRecvIdent(fd, ""); id != nil {
+			return info.Defs[id]
+		}
+		return nil
+	}
+	if len(fd.Recv.List) == 0 || len(fd.Recv.List[0].Names) == 0 {
 		return nil
 	}
 	return info.Defs[fd.Recv.List[0].Names[0]]
